@@ -307,6 +307,32 @@ pub fn c13_check(input: &[u8]) -> Vec<Fail> {
             }
         }
     }
+    // the same comparison through the FromStr entry points (the two crates implement them separately)
+    if let Ok(text) = std::str::from_utf8(input) {
+        let sli = guard(|| text.parse::<LanguageIdentifier>());
+        let slo = guard(|| text.parse::<Locale>());
+        match (&sli, &slo) {
+            (Err(p), _) | (_, Err(p)) => out.push(fail("panic", format!("FromStr panicked: {}", p))),
+            (Ok(Ok(a)), Ok(Err(e))) => out.push(fail("langid-ok-locale-err", format!("[FromStr] LanguageIdentifier accepts ({}), Locale rejects with {:?}", a, e))),
+            (Ok(Ok(a)), Ok(Ok(b))) => {
+                if b.id != *a || !b.extensions.is_empty() || b.to_string() != a.to_string() {
+                    out.push(fail("id-differs", format!("[FromStr] LanguageIdentifier = {}, Locale = {}", a, b)));
+                }
+            }
+            _ => {}
+        }
+        // and each type's FromStr must agree with its own from_bytes on the same text
+        if let Ok(a) = &sli {
+            if a.is_ok() != li.is_ok() || (a.is_ok() && a.as_ref().ok() != li.as_ref().ok()) {
+                out.push(fail("fromstr-vs-from_bytes", format!("LanguageIdentifier: FromStr = {:?}, from_bytes = {:?}", a.as_ref().map(|x| x.to_string()).map_err(|_| "Err"), li.as_ref().map(|x| x.to_string()).map_err(|_| "Err"))));
+            }
+        }
+        if let Ok(a) = &slo {
+            if a.is_ok() != lo.is_ok() || (a.is_ok() && a.as_ref().ok() != lo.as_ref().ok()) {
+                out.push(fail("fromstr-vs-from_bytes", format!("Locale: FromStr = {:?}, from_bytes = {:?}", a.as_ref().map(|x| x.to_string()).map_err(|_| "Err"), lo.as_ref().map(|x| x.to_string()).map_err(|_| "Err"))));
+            }
+        }
+    }
     if let Ok(loc) = &lo {
         // id == LanguageIdentifier parsed from the part before the first singleton subtag
         let toks = refspec::split(input);
